@@ -14,6 +14,8 @@ import DateutilVerif.Proofs.RRuleWeeknoYearly
 import DateutilVerif.Proofs.RRuleHourlyBy
 import DateutilVerif.Proofs.RRuleSecondly
 import DateutilVerif.Proofs.RRuleMinutelyBy
+import DateutilVerif.Proofs.RRuleDailyW
+import DateutilVerif.Proofs.RRuleMonthlyW
 
 namespace RRule
 open Cal
@@ -29,6 +31,12 @@ theorem someWith_elim {α} {o : Option (List α)} {P : List α → Prop} (h : so
 
 theorem untilOk_elim (h : untilOk a) : ∀ u, a.untilDT = some u → Spec.RRule.startMicros a ≤ u.toMicros := by
   intro u hu; unfold untilOk at h; rw [hu] at h; exact h
+
+theorem wArgOk_elim (h : wArgOk a) : WArg a := by
+  rcases h with h | ⟨h1, h2, h3⟩
+  · exact Or.inl h
+  · obtain ⟨wl, hwl, hne, hok⟩ := someWith_elim h1
+    exact Or.inr ⟨wl, hwl, hne, ⟨hok.1, hok.2⟩, h2, h3⟩
 
 theorem family_sound (f : Family) (h : family a = some f) : SupportedBy a f := by
   unfold family at h
@@ -47,7 +55,7 @@ theorem iter_eq_spec_supported (a : Args) (r : Rule) (h : construct a = .ok r) (
   | daily =>
     obtain ⟨hf, ⟨hi, hv, hz⟩, h1, h2⟩ := hs
     exact ⟨n, by omega, by simp [Family.periodsPerTurn],
-      iter_eq_spec_daily ⟨⟨Or.inr hf, hi, hv, h1, h2, hz⟩, hf⟩ h n hr⟩
+      iter_eq_spec_daily_w ⟨hf, hi, hv, wArgOk_elim h1, h2, hz⟩ h n hr⟩
   | weekly =>
     obtain ⟨hf, ⟨hi, hv, hz⟩, h1, h2, h3, h4, h5⟩ := hs
     exact ⟨n, by omega, by simp [Family.periodsPerTurn],
@@ -76,22 +84,27 @@ theorem iter_eq_spec_supported (a : Args) (r : Rule) (h : construct a = .ok r) (
     obtain ⟨wl, hwl, hne, hok⟩ := someWith_elim h4
     exact ⟨n, by omega, by simp [Family.periodsPerTurn],
       iter_eq_spec_yearly_weekno ⟨hf, hi, hv, h3, hz, h1, h2, ⟨wl, hwl, hne, ⟨hok.1, hok.2⟩⟩⟩ h n hr⟩
+  | monthlyWeekno =>
+    obtain ⟨hf, ⟨hi, hv, hz⟩, h1, h2, h3, h4⟩ := hs
+    obtain ⟨wl, hwl, hne, hok⟩ := someWith_elim h4
+    exact ⟨n, by omega, by simp [Family.periodsPerTurn],
+      iter_eq_spec_monthly_weekno ⟨hf, hi, hv, h3, hz, h1, h2, ⟨wl, hwl, hne, ⟨hok.1, hok.2⟩⟩⟩ h n hr⟩
   | hourly =>
     obtain ⟨hf, ⟨hi, hv, hz⟩, h1, h2, h3, h4, h5⟩ := hs
-    exact iter_eq_spec_hourly ⟨hf, hi, hv, h1, h2, hz, h3, h4, h5⟩ h n hr
+    exact iter_eq_spec_hourly ⟨hf, hi, hv, wArgOk_elim h1, h2, hz, h3, h4, h5⟩ h n hr
   | hourlyByhour =>
     obtain ⟨hf, ⟨hi, hv, hz⟩, h1, h2, h3, h4, h5⟩ := hs
     obtain ⟨l, hl, _, hlr⟩ := someWith_elim h3
-    exact iter_eq_spec_hourly_byhour ⟨hf, hi, hv, h1, h2, hz, ⟨l, hl, hlr⟩, h4, h5⟩ h n hr
+    exact iter_eq_spec_hourly_byhour ⟨hf, hi, hv, wArgOk_elim h1, h2, hz, ⟨l, hl, hlr⟩, h4, h5⟩ h n hr
   | minutely =>
     obtain ⟨hf, ⟨hi, hv, hz⟩, h1, h2, h3, h4, h5⟩ := hs
-    exact iter_eq_spec_minutely ⟨hf, hi, hv, h1, h2, hz, h3, h4, h5⟩ h n hr
+    exact iter_eq_spec_minutely ⟨hf, hi, hv, wArgOk_elim h1, h2, hz, h3, h4, h5⟩ h n hr
   | minutelyByminute =>
     obtain ⟨hf, ⟨hi, hv, hz⟩, h1, h2, h3, h4, h5⟩ := hs
     obtain ⟨l, hl, _, hlr⟩ := someWith_elim h4
-    exact iter_eq_spec_minutely_byminute ⟨hf, hi, hv, h1, h2, hz, h3, ⟨l, hl, hlr⟩, h5⟩ h n hr
+    exact iter_eq_spec_minutely_byminute ⟨hf, hi, hv, wArgOk_elim h1, h2, hz, h3, ⟨l, hl, hlr⟩, h5⟩ h n hr
   | secondly =>
     obtain ⟨hf, ⟨hi, hv, hz⟩, h1, h2, h3, h4, h5⟩ := hs
-    exact iter_eq_spec_secondly ⟨hf, hi, hv, h1, h2, hz, h3, h4, h5⟩ h n hr
+    exact iter_eq_spec_secondly ⟨hf, hi, hv, wArgOk_elim h1, h2, hz, h3, h4, h5⟩ h n hr
 
 end RRule
